@@ -236,7 +236,11 @@ func runParsers(c *vh.Ctx) {
 	// every type byte once, with an empty body
 	for ty := 0; ty < 256; ty++ {
 		data := hs(byte(ty), nil)
-		for _, vers := range []uint16{0x0303, 0x0304} {
+		versions := []uint16{0x0304}
+		if ty == 4 || ty == 11 || ty == 13 || ty == 8 || ty == 25 { // the version-dependent types, and the two uTLS ones
+			versions = []uint16{0x0303, 0x0304}
+		}
+		for _, vers := range versions {
 			var tn string
 			var al int
 			if !guard(c, "Conn.unmarshalHandshakeMessage", "type-sweep", data, func() { tn, al, _ = utls.VerifC34UnmarshalHandshakeMessage(false, vers, data) }) {
